@@ -119,7 +119,7 @@ let show_ev = function
   | EFrrReload -> "F:reload"
 let csv_nats (s : string) : nat list =
   if s = "-" then [] else List.map (fun x -> nat_of_int (int_of_string x)) (String.split_on_char ',' s)
-let kind_of = function "O" -> KObj | "E" -> KEntry | "L" -> KList | "A" -> KAny | "I" -> KInt | "U" -> KU32 | "S" -> KStr | "B" -> KBool | "N" -> KInternal | _ -> failwith "kind"
+let kind_of = function "P" -> KObjF | "O" -> KObj | "E" -> KEntry | "L" -> KList | "A" -> KAny | "I" -> KInt | "U" -> KU32 | "S" -> KStr | "B" -> KBool | "N" -> KInternal | _ -> failwith "kind"
 (* concurrent mode: search for a sequential order of the threads' operations that explains every
    observed result and the final state (linearizability w.r.t. the model) *)
 let run_conc (var : variant) reg g init_st (f : string array) (p0 : int) (impl : string) : string =
